@@ -105,6 +105,20 @@ func (r *Run) unknownViolations() int {
 	return n
 }
 
+// ViolateOnce records a violation that carries a finding id only once per id (bin/check turns listed ones into
+// KNOWN-FINDING lines), any other violation as usual.
+func (r *Run) ViolateOnce(what string, replay map[string]any) {
+	if fid, ok := replay["finding_id"].(string); ok {
+		for _, k := range r.Known {
+			if k == fid {
+				return
+			}
+		}
+		r.Known = append(r.Known, fid)
+	}
+	r.Violate(what, replay)
+}
+
 func (r *Run) Finish(rule string) {
 	must(r.ops.Flush())
 	must(r.impl.Flush())
